@@ -82,6 +82,15 @@ impl Bind {
     pub(crate) fn is_empty(&self) -> bool {
         self.bound_generics.is_empty()
     }
+
+    /// whether no generic is bound to anything but itself or the bottom type
+    pub(crate) fn is_trivial(&self) -> bool {
+        self.bound_generics.iter().all(|(k, v)| match v.as_ref() {
+            XType::XGeneric(g) => g == k,
+            XType::XUnknown => true,
+            _ => false,
+        })
+    }
 }
 
 impl<I> FromIterator<I> for Bind
@@ -458,9 +467,8 @@ impl XType {
                 }
                 Some(bind)
             }
-            (Self::XGeneric(ref a), Self::XGeneric(ref b)) if a == b => Some(Bind::new()),
-            (_, Self::XUnknown) => Some(Bind::new()),
             (Self::XGeneric(ref a), _) => Some(Bind::from([(*a, other.clone())])),
+            (_, Self::XUnknown) => Some(Bind::new()),
             (Self::XUnknown, _) => Some(Bind::new()),
 
             _ => None,
